@@ -27,7 +27,7 @@ RULE = ("Faults = every prefix length k in 0..N of the shipped N-byte cache file
         "fault (kind, k, content hash). Level 2 re-runs a subset with real interpreter imports.")
 ASSUMPTIONS = ["an interrupted or concurrent write of the single open(..,'wb')+pickle.dump leaves a prefix of the full file",
                "the directory stays writable (running as root, a read-only directory cannot be simulated here)"]
-ESSENTIAL = ["prefix", "missing", "k=0", "garbage"]
+ESSENTIAL = ["prefix", "missing", "k=0", "garbage", "crash-in-write", "crash:crashed"]
 
 _state = {}
 
@@ -83,20 +83,30 @@ def _content(case):
 def check_case(case):
     from dateparser import timezone_parser as tp
     import regex as re
-    content = _content(case)
+    kind = case["kind"]
+    content = _content(case if kind != "crash-in-write" else case["start"])
     N = len(_cache_bytes())
+    # every case starts from an empty directory (whatever an earlier case's write protocol left beside the cache is gone)
+    for fn in os.listdir(_tmpdir()):
+        os.remove(os.path.join(_tmpdir(), fn))
     path = os.path.join(_tmpdir(), "dateparser_tz_cache.pkl")
-    if os.path.exists(path):
-        os.remove(path)
     if content is not None:
         with open(path, "wb") as f:
             f.write(content)
-    kind = case["kind"]
+    # the library calls _load_offsets with its own CACHE_PATH object (a pathlib.Path today): pass the same type
+    path = type(tp.CACHE_PATH)(path) if not isinstance(tp.CACHE_PATH, str) else path
     cls = [kind]
+    if kind == "crash-in-write":
+        # phase 1: a process that has to rebuild and write the cache dies inside the library's own write, after `budget`
+        # bytes (or at the rename/replace that ends the write, if the library uses one).  Whatever that leaves on disk — a
+        # prefix of the cache, a temporary sibling — is the state the next import finds.
+        reached = _crash_in_write(tp, path, case["budget"])
+        cls.append("crash:" + reached)
+        cls.append("crash-budget:" + ("0" if case["budget"] == 0 else "rename" if case["budget"] >= 10 ** 9 else "mid"))
     if kind == "prefix":
         cls.append("k=0" if case["k"] == 0 else "k=N" if case["k"] == N else "k=N-1" if case["k"] == N - 1 else "0<k<N")
     damaged = not (kind == "prefix" and case["k"] == N)
-    key = (kind, case.get("k"), case.get("shape"), hash(content)) if damaged else None
+    key = (kind, case.get("k"), case.get("shape"), case.get("budget"), hash(content)) if damaged else None
     saved = (tp._tz_offsets, tp._search_regex, tp._search_regex_ignorecase)
     calls = [0]
     real_build = tp.build_tz_offsets
@@ -126,7 +136,7 @@ def check_case(case):
                 fail = ("table", "table after load differs from the table rebuilt from source")
         if not fail:
             try:
-                with open(path, "rb") as f:
+                with open(str(path), "rb") as f:
                     obj = pickle.load(f)
                     rest = f.read()
                 h, offs, s1, s2 = obj
@@ -153,6 +163,65 @@ def check_case(case):
         return {"ok": False, "bucket": "%s:%s" % (kind if kind != "prefix" else "truncated", fail[0]),
                 "detail": "%s -> %s" % ({k: v for k, v in case.items() if k != "bytes"}, fail[1]), "key": key, "cls": cls}
     return {"ok": True, "key": key, "cls": cls}
+
+
+class _DyingFile:
+    """File wrapper that lets `budget` more bytes through and then ends the process without any clean-up (a crash)."""
+
+    def __init__(self, f, left):
+        self._f, self._left = f, left
+
+    def write(self, b):
+        b = bytes(b)
+        if len(b) > self._left[0]:
+            self._f.write(b[: self._left[0]])
+            self._f.flush()
+            os._exit(17)
+        self._left[0] -= len(b)
+        return self._f.write(b)
+
+    def __getattr__(self, name):
+        return getattr(self._f, name)
+
+    def __enter__(self):
+        return self
+
+    def __exit__(self, *a):
+        return self._f.__exit__(*a)
+
+
+def _crash_in_write(tp, path, budget):
+    """fork; in the child every file opened for writing dies after `budget` bytes in total, and os.replace/os.rename die when the
+    budget says 'rename' (>= 10**9).  Returns 'crashed' or 'completed' (the write never reached the crash point)."""
+    pid = os.fork()
+    if pid == 0:
+        try:
+            import builtins
+            import io
+            left = [budget]
+            real_open = builtins.open
+
+            def dying_open(file, mode="r", *a, **kw):
+                f = real_open(file, mode, *a, **kw)
+                if any(ch in mode for ch in "wxa+") and "b" in mode:
+                    return _DyingFile(f, left)
+                return f
+            builtins.open = dying_open
+            io.open = dying_open
+            if budget >= 10 ** 9:
+                def dying_rename(*a, **kw):
+                    os._exit(17)
+                os.replace = dying_rename
+                os.rename = dying_rename
+            try:
+                tp._load_offsets(path, None)
+            except BaseException:
+                os._exit(3)
+        finally:
+            os._exit(0)
+    _, status = os.waitpid(pid, 0)
+    code = os.waitstatus_to_exitcode(status)
+    return "crashed" if code == 17 else "completed" if code == 0 else "raised"
 
 
 def _boundaries():
@@ -219,6 +288,14 @@ def _prefix_cases(ctx):
             ks = [k for i, k in enumerate(sorted(sel)) if i % nshards == shard]
         for k in ks:
             yield {"kind": "prefix", "k": k}
+        if shard == 1 % nshards:
+            # the library's own write is killed after `budget` bytes (10**9 = at the final rename, if there is one), from
+            # each start state that makes an import rebuild and write the cache
+            budgets = [0, 1, 100, 4097, 65535, 65536, 65537, 100000, N - 1000, 10 ** 9] if ctx.quick else (
+                [0, 1, 2, 10 ** 9] + list(range(100, N + 300, 1499)))
+            for start in ({"kind": "missing"}, {"kind": "prefix", "k": 0}, {"kind": "prefix", "k": 70001}):
+                for b in budgets:
+                    yield {"kind": "crash-in-write", "start": start, "budget": b}
         if shard == 0:
             yield {"kind": "missing"}
             for shape in ("tuple3", "dict", "none", "tuple5", "int"):
